@@ -212,6 +212,139 @@ def apply_config(env, op: dict) -> None:
         raise ValueError(k)
 
 
+class PristineRef:
+    """Oracle 6: the same call on fresh objects in a PROCESS that has never rendered.
+
+    At the start of the run (before the first parse) the child forks a reference
+    server; the server itself never touches the library, it forks one grandchild
+    per request, which rebuilds the fresh world from the plan prefix, executes the
+    call and replies.  Whatever an earlier step left behind in module globals,
+    class attributes, caches or anything else the shared world AND its in-process
+    fresh twin both see, the grandchild does not.
+    """
+
+    def __init__(self, plan: dict) -> None:
+        import os
+
+        self.req_r, self.req_w = os.pipe()
+        self.rep_r, self.rep_w = os.pipe()
+        self.pid = os.fork()
+        if self.pid == 0:
+            try:
+                os.close(self.req_w)
+                os.close(self.rep_r)
+                self._serve(plan)
+            finally:
+                os._exit(0)
+        os.close(self.req_r)
+        os.close(self.rep_w)
+        self.asked = 0
+
+    @staticmethod
+    def _read_msg(fd):
+        import os
+
+        head = b""
+        while len(head) < 8:
+            b = os.read(fd, 8 - len(head))
+            if not b:
+                return None
+            head += b
+        n = int(head)
+        buf = b""
+        while len(buf) < n:
+            b = os.read(fd, n - len(buf))
+            if not b:
+                return None
+            buf += b
+        return json.loads(buf.decode())
+
+    @staticmethod
+    def _write_msg(fd, obj) -> None:
+        import os
+
+        data = json.dumps(obj, default=str).encode()
+        os.write(fd, b"%08d" % len(data) + data)
+
+    def _serve(self, plan: dict) -> None:
+        import os
+        import signal
+
+        # NB: no faulthandler.dump_traceback_later here: the watchdog thread of the parent does
+        # not survive fork() and re-arming it in a forked process deadlocks; SIGALRM's default
+        # action (terminate) bounds a hanging grandchild instead.
+        while True:
+            req = self._read_msg(self.req_r)
+            if req is None:
+                return
+            pid = os.fork()
+            if pid == 0:
+                try:
+                    signal.alarm(40)
+                    try:
+                        out = self._compute(plan, req)
+                    except Inconclusive as exc:
+                        out = ["inconclusive", str(exc)]
+                    except BaseException as exc:  # noqa: BLE001
+                        out = ["harness_error", f"{type(exc).__name__}: {exc}"]
+                    self._write_msg(self.rep_w, out)
+                finally:
+                    os._exit(0)
+            os.waitpid(pid, 0)
+
+    @staticmethod
+    def _compute(plan: dict, req: dict):
+        segs = common.Segments(plan["seed"], "fifo")
+        w = World(plan, segs)
+        simclock.CLOCK.now = req["now"]
+        ei = req["ei"]
+        w.env_events[ei] = [tuple(e) for e in req["events"]]
+        for hid, h in req["hspec"].items():
+            w.hspec[int(hid)] = h
+        inst = w.fresh_for(ei, req["step"]["h"])
+        out, _ = w.call(inst, req["step"], solo_sid="pr")
+        return list(out)
+
+    def ask(self, w, ei: int, step: dict):
+        self.asked += 1
+        self._write_msg(self.req_w, {"now": w.clock.now, "ei": ei, "events": w.env_events[ei],
+                                     "hspec": {str(k): v for k, v in w.hspec.items()}, "step": step})
+        rep = self._read_msg(self.rep_r)
+        if rep is None:
+            raise RuntimeError("pristine reference server died")
+        if rep[0] == "inconclusive":
+            raise Inconclusive(rep[1])
+        if rep[0] == "harness_error":
+            raise RuntimeError("pristine reference failed: " + rep[1])
+        return _detuple(rep)
+
+    def close(self) -> None:
+        import os
+
+        for fd in (self.req_w, self.rep_r):
+            try:
+                os.close(fd)
+            except OSError:
+                pass
+        try:
+            os.waitpid(self.pid, 0)
+        except ChildProcessError:
+            pass
+
+
+def _detuple(x):
+    """JSON turns tuples into lists; outcomes are compared as nested lists."""
+    return x
+
+
+def _listify(x):
+    if isinstance(x, (tuple, list)):
+        return [_listify(v) for v in x]
+    if isinstance(x, dict):
+        return {k: _listify(v) for k, v in x.items()}
+    return x
+
+
 class Inst:
     """A set of live objects: shared world or a fresh twin."""
 
@@ -232,6 +365,7 @@ class World:
         self.counters: dict[str, int] = {}
         self.memo: dict[str, tuple] = {}
         self.trace: list = []
+        self.pristine: PristineRef | None = None
         self.probe_before: dict[int, list] | None = None
         self.t0 = self.clock.now
         for i in range(len(plan["envs"])):
@@ -403,6 +537,13 @@ class World:
             raise Violation("differs_from_fresh", step=step["id"], op=step["op"], label=label, prog=h.get("prog"),
                             got=_short(got), expected=_short(exp))
         self.count("diff_ok")
+        # oracle 6: the same call in a process that has never rendered
+        if self.pristine is not None:
+            exp2 = self.pristine.ask(self, ei, step)
+            if json.loads(json.dumps(_listify(got), default=str)) != exp2:
+                raise Violation("differs_from_pristine_process", step=step["id"], op=step["op"], label=label,
+                                prog=h.get("prog"), got=_short(got), expected=_short(exp2))
+            self.count("pristine_process_ok")
         # oracle 2: closed form
         prog = h.get("prog")
         if (prog in STATEFUL and step["op"] == "render" and not fault and self.plain_env(ei)
@@ -624,15 +765,26 @@ def do_par(w: World, step: dict) -> None:
     tasks = step["tasks"]
     results: dict[int, tuple] = {}
 
+    # a task that re-gets its template inside the batch holds a NEW handle, obtained at
+    # this point of the environment's configuration history (the twin does the same)
+    hid_of: dict[int, int] = {}
+    for i, tk in enumerate(tasks):
+        hid_of[i] = tk["h"]
+        if tk["h"] in w.hspec and tk.get("reget") and w.hspec[tk["h"]]["how"] == "get":
+            nh = 100000 + int(step["id"]) * 16 + i
+            w.hspec[nh] = dict(w.hspec[tk["h"]])
+            w.env_events[w.hspec[nh]["env"]].append(("obtain", nh))
+            hid_of[i] = nh
+
     async def one(i, tk):
-        inner = {"op": "render", "h": tk["h"], "data": tk["data"], "mode": "a", "id": f"{step['id']}.{i}"}
         st = w.shared.handles.get(tk["h"])
-        if tk.get("reget") and w.hspec[tk["h"]]["how"] == "get":
-            h = w.hspec[tk["h"]]
+        if hid_of[i] != tk["h"]:
+            h = w.hspec[hid_of[i]]
             env = w.shared.envs[h["env"]]
             try:
                 t = await env.get_template_async(h["name"], globals=_copy(h.get("globals")))
                 st = ("ok", t)
+                w.shared.handles[hid_of[i]] = st
             except Inconclusive:
                 raise
             except asyncio.CancelledError:
@@ -668,7 +820,7 @@ def do_par(w: World, step: dict) -> None:
         raise Violation("batch_failed", outcome=out)
     w.count("par_batches")
     for i, tk in enumerate(tasks):
-        inner = {"op": "render", "h": tk["h"], "data": tk["data"], "mode": "a", "id": f"{step['id']}.{i}"}
+        inner = {"op": "render", "h": hid_of[i], "data": tk["data"], "mode": "a", "id": f"{step['id']}.{i}"}
         got = results.get(i)
         if got is None or got[0] not in ("ok", "err"):
             raise Violation("batch_lost_task", task=i)
@@ -684,8 +836,10 @@ def execute(plan: dict) -> dict:
     w = None
     status = "ok"
     violation = None
+    pristine = PristineRef(plan) if plan.get("pristine_ref") else None
     try:
         w = World(plan, segs)
+        w.pristine = pristine
         for step in plan["steps"]:
             do_step(w, step)
     except Violation as v:
@@ -696,6 +850,9 @@ def execute(plan: dict) -> dict:
         status = "inconclusive"
         if w is not None:
             w.count("inconclusive:" + str(exc))
+    finally:
+        if pristine is not None:
+            pristine.close()
     c = w.counters if w is not None else {}
     c["decisions"] = segs.total_decisions
     c["overlap_decisions"] = segs.overlap
@@ -727,8 +884,9 @@ def gen_plan(seed: int, tier: str) -> dict:
     envs = []
     gen_parts: dict[str, str] = {}
     gen_progs = []
+    shopify = rng.random() < 0.2
     for _ in range(rng.choice([1, 2, 3])):
-        src, parts, _ = gprog.generate(rng, shopify=False, max_depth=rng.choice([2, 3]))
+        src, parts, _ = gprog.generate(rng, shopify=shopify, max_depth=rng.choice([2, 3]))
         gen_parts.update(parts)
         gen_progs.append(src)
     for i in range(n_env):
@@ -736,7 +894,8 @@ def gen_plan(seed: int, tier: str) -> dict:
             envs.append({"default_global": True})
             continue
         plain = rng.random() < 0.55
-        envc = {} if plain else {
+        envc = ({"shopify": True} if shopify else {}) if plain else {
+            "shopify": shopify,
             "auto_escape": rng.random() < 0.3,
             "undefined": rng.choice([None, None, "strict", "falsy"]),
             "trim": rng.choice([None, None, "-", "~"]),
@@ -841,7 +1000,8 @@ def gen_plan(seed: int, tier: str) -> dict:
     # bounded recovery: every handle rendered once more, unfaulted
     for hid, _ in handles:
         steps.append({"op": "render", "id": nid(), "h": hid, "mode": "s", "data": data_spec()})
-    return {"property": PROP, "seed": seed, "policy": rng.choice(simsched.POLICIES), "envs": envs, "steps": steps}
+    return {"property": PROP, "seed": seed, "policy": rng.choice(simsched.POLICIES), "envs": envs, "steps": steps,
+            "pristine_ref": rng.random() < 0.3}
 
 
 class Engine:
